@@ -37,8 +37,37 @@ def uf_case(draw):
     pool = {"int": INT_POOL, "str": STR_POOL, "tuple": TUP_POOL,
             "mixed": st.one_of(INT_POOL, STR_POOL, TUP_POOL)}[kind]
     init = draw(st.lists(pool, max_size=5))
-    pre = draw(st.lists(st.tuples(st.just("union"), pool, pool).map(list), max_size=8))
-    return {"kind": kind, "init": init, "ops": pre + draw(uf_ops(pool))}
+    pre = draw(st.lists(st.tuples(st.just("union"), pool, pool).map(list), max_size=12))
+    if draw(st.booleans()):
+        # balanced "tournament" of unions over 8 distinct elements in a drawn order: equal-size merges are what makes the
+        # internal trees deep (depth 3 after three rounds); which member of each block is named in the union is drawn too
+        values = {"int": list(range(10)), "str": ["a", "b", "c", "dd", "e", "", "xyz", "0"],
+                  "tuple": [["t", 0, 1], ["t", 1, 0], ["t", 2, 3], ["t", 0], ["t"], ["t", 1, 2, 3], ["t", "a", 1], ["t", 4, 5], ["t", ["t", 0, 1], 2]],
+                  "mixed": [0, 1, 2, "a", "b", ["t", 0, 1], ["t"], "xyz", 7]}[kind]
+        perm = list(draw(st.permutations(values)))[:8]
+        blocks = [[e] for e in perm]
+        tour = []
+        while len(blocks) > 1:
+            nxt = []
+            use_roots = draw(st.integers(0, 3)) > 0      # naming the block representatives keeps the trees uncompressed
+            for i in range(0, len(blocks) - 1, 2):
+                # each block list starts with its internal root (ties attach the second argument's root under the first's)
+                a = blocks[i][0] if use_roots else blocks[i][draw(st.integers(0, len(blocks[i]) - 1))]
+                b = blocks[i + 1][0] if use_roots else blocks[i + 1][draw(st.integers(0, len(blocks[i + 1]) - 1))]
+                if draw(st.booleans()):
+                    tour.append(["union", a, b]); nxt.append(blocks[i] + blocks[i + 1])
+                else:
+                    tour.append(["union", b, a]); nxt.append(blocks[i + 1] + blocks[i])
+            if len(blocks) % 2:
+                nxt.append(blocks[-1])
+            blocks = nxt
+        pre = tour[:draw(st.integers(3, len(tour)))] + pre[:2]
+        init = draw(st.sampled_from([[], sorted(perm, key=repr), perm]))
+    # readout: "every" = full read-out after every step; "sparse" = only after query ops and at the end, so that chains of
+    # unions are NOT interleaved with finds (deep, uncompressed trees survive until the first query); order = which part of
+    # the read-out comes first
+    return {"kind": kind, "init": init, "ops": pre + draw(uf_ops(pool)),
+            "readout": draw(st.sampled_from(["every", "sparse", "sparse"])), "order": draw(st.integers(0, 5))}
 
 
 class PartitionModel:
@@ -73,29 +102,54 @@ class PartitionModel:
         return sorted((sorted(map(repr, b)) for b in self.blocks))
 
 
-def observe_partition(uf, ctx, model, where):
-    """Full read-out of the implementation compared with the model; must not change anything."""
+def observe_partition(uf, ctx, model, where, order=0):
+    """Full read-out of the implementation compared with the model; must not change anything. The parts are issued in a
+    case-dependent order: each of them can be the first query after a chain of unions."""
     ctx.check(len(uf) == len(model.order) and uf.n_elts == len(model.order), "uf:count", f"{where}: len={len(uf)} n_elts={uf.n_elts} model={len(model.order)}")
     ctx.check(uf.n_comps == len(model.blocks), "uf:n_comps", f"{where}: n_comps={uf.n_comps} model={len(model.blocks)}")
-    # connected(x,y) for all pairs
-    for x in model.order:
-        for y in model.order:
-            ok, c = ctx.call("uf:connected", uf.connected, x, y)
+
+    def part_connected():
+        for x in model.order:
+            for y in model.order:
+                ok, c = ctx.call("uf:connected", uf.connected, x, y)
+                if ok:
+                    ctx.check(bool(c) == (model.block(x) is model.block(y)), "uf:connected", f"{where}: connected({x!r},{y!r})={c}")
+
+    def part_components():
+        ok, comps = ctx.call("uf:components", uf.components)
+        if ok:
+            got = sorted(sorted(map(repr, c)) for c in comps)
+            ctx.check(got == model.snapshot(), "uf:components", f"{where}: components()={comps} model={model.blocks}")
+            ctx.check(sum(len(c) for c in comps) == len(model.order), "uf:components-cover", f"{where}: element in several/no components: {comps}")
+
+    def part_roots():
+        ok, roots = ctx.call("uf:roots", uf.roots)
+        if ok:
+            ctx.check(len(roots) == len(model.blocks), "uf:roots", f"{where}: roots()={roots}, model has {len(model.blocks)} blocks")
+            try:
+                reps = [uf[r] for r in roots]
+                ctx.check(len({id(model.block(e)) for e in reps}) == len(model.blocks), "uf:roots", f"{where}: roots do not name one element per block: {roots}")
+            except Exception as e:
+                ctx.fail("uf:roots", f"{where}: roots() are not element indices: {roots} ({e})")
+
+    def part_mapping():
+        ok, mp = ctx.call("uf:mapping", uf.component_mapping)
+        if ok:
+            ctx.check(len(mp) == len(model.order) and set(mp.keys()) == set(model.order), "uf:mapping-keys", f"{where}: keys {list(mp.keys())!r} vs {model.order!r}")
+            for e in model.order:
+                if e in mp:
+                    ctx.check(set(mp[e]) == model.block(e) and len(mp[e]) == len(model.block(e)), "uf:mapping", f"{where}: mapping[{e!r}]={mp[e]!r} model {model.block(e)!r}")
+
+    def part_component():
+        for e in model.order:
+            ok, c = ctx.call("uf:component", uf.component, e)
             if ok:
-                ctx.check(bool(c) == (model.block(x) is model.block(y)), "uf:connected", f"{where}: connected({x!r},{y!r})={c}")
-    ok, comps = ctx.call("uf:components", uf.components)
-    if ok:
-        got = sorted(sorted(map(repr, c)) for c in comps)
-        ctx.check(got == model.snapshot(), "uf:components", f"{where}: components()={comps} model={model.blocks}")
-        ctx.check(sum(len(c) for c in comps) == len(model.order), "uf:components-cover", f"{where}: element in several/no components: {comps}")
-    ok, roots = ctx.call("uf:roots", uf.roots)
-    if ok:
-        ctx.check(len(roots) == len(model.blocks), "uf:roots", f"{where}: roots()={roots}, model has {len(model.blocks)} blocks")
-        try:
-            reps = [uf[r] for r in roots]
-            ctx.check(len({id(model.block(e)) for e in reps}) == len(model.blocks), "uf:roots", f"{where}: roots do not name one element per block: {roots}")
-        except Exception as e:
-            ctx.fail("uf:roots", f"{where}: roots() are not element indices: {roots} ({e})")
+                ctx.check(isinstance(c, set) and set(c) == model.block(e) and len(c) == len(model.block(e)), "uf:component", f"{where}: component({e!r}) = {c!r}, model {model.block(e)!r}")
+
+    parts = [part_components, part_connected, part_roots, part_mapping, part_component]
+    k = order % len(parts)
+    for part in parts[k:] + parts[:k]:
+        part()
 
 
 def fn_uf(case, ctx):
@@ -105,7 +159,7 @@ def fn_uf(case, ctx):
     uf = UnionFind(init) if init else UnionFind()
     for e in init:
         model.add(e)
-    ctx.label("kind=" + case["kind"])
+    ctx.label("kind=" + case["kind"], "readout=" + case.get("readout", "every"))
     big_union = False
     for step, op in enumerate(case["ops"]):
         name = op[0]
@@ -205,8 +259,11 @@ def fn_uf(case, ctx):
                     pass
         if name not in ("add", "union"):
             ctx.check(model.snapshot() == before, "harness", "model changed by a query")
-        # queries never change the partition; after every step the whole read-out agrees with the model
-        observe_partition(uf, ctx, model, where)
+        # queries never change the partition; the whole read-out agrees with the model (after every step, or - "sparse" -
+        # only after query operations, so that union chains are not interleaved with path-compressing finds)
+        if case.get("readout", "every") == "every" or name not in ("add", "union"):
+            observe_partition(uf, ctx, model, where, case.get("order", 0) + step)
+    observe_partition(uf, ctx, model, "end of history", case.get("order", 0))
 
 
 # --------------------------------------------------------------------------------- priority queue
